@@ -293,6 +293,8 @@ def c01_4(ctx: Ctx) -> RuleResult:
         guard_ok = False
         for n in nodes_in(f, ast.If):
             tt = norm(X.value_at(f, n.test))
+            while tt[0] == "unary" and tt[1] in ("not", "~"):
+                tt = tt[2]  # `if not all(failed): <values> else: <NaN>` is the same guard
             if tt[0] == "call" and tt[1] == G("numpy.all") and any(s[0] == "param" and "failed" in s[2] for s in subterms(tt)):
                 guard_ok = True
         nan_sources = nan_alt is not None
